@@ -1,11 +1,20 @@
 mod algebra;
 mod marker;
+mod mparse;
+mod worker;
 mod names;
 mod pyver;
 mod util;
 
 fn main() {
     let args: Vec<String> = std::env::args().collect();
+    if args.len() >= 3 && args[1] == "worker" {
+        match args[2].as_str() {
+            "mparse" => worker::serve(&mparse::worker_handle),
+            _ => {}
+        }
+        return;
+    }
     if args.len() < 5 {
         eprintln!("usage: verif-harness <suite> <tier> <seed> <outdir> [extra…]");
         std::process::exit(2);
@@ -16,6 +25,7 @@ fn main() {
         "names" => names::run(&mut out, tier, seed),
         "algebra" => algebra::run(&mut out, tier, seed, &args[5]),
         "pyver" => pyver::run(&mut out, tier, seed, &args[5]),
+        "mparse" => mparse::run(&mut out, tier, seed, &args[5]),
         "name1" => names::one(&mut out, &util::unhex(&args[5])),
         _ => {
             eprintln!("unknown suite {suite}");
